@@ -59,7 +59,16 @@ def _strategy(draw):
         mode = draw(st.sampled_from(["c", "c", "mc"]))
     spec["coords"] = draw(c03.supplied_coords(spec, opts["box"], mode=mode, nres=nres,
                                               skip=opts.get("build_res", ())))
-    if draw(st.integers(0, 3)) == 0:
+    if mode == "c" and ignore is None and not opts.get("build_res") and draw(st.integers(0, 4)) == 0:
+        # -split together with a start structure: the residues are split first, the supplied atoms keep
+        # their coordinates all the same
+        cands = sorted({r["resname"]: r for mt in spec["moltypes"] for r in mt["residues"] if len(r["atoms"]) >= 2}.items())
+        if cands:
+            resname, rd = draw(st.sampled_from(cands))
+            cut = draw(st.integers(1, len(rd["atoms"]) - 1))
+            names_ = [a["name"] for a in rd["atoms"]]
+            opts["split"] = [f"{resname}:X1-" + ",".join(names_[:cut]) + ":X2-" + ",".join(names_[cut:])]
+    if not opts.get("split") and draw(st.integers(0, 3)) == 0:
         # the walk of one molecule is told (-start) to begin at a residue that has supplied coordinates
         by_name = {mt["name"]: mt for mt in spec["moltypes"]}
         mol_names = [n for n, c in spec["molecules"] for _ in range(c)]
@@ -123,6 +132,8 @@ def check(spec, ctx):
         return orig_update(self, vector_bundle, current_node, prev_node)
 
     def verify_rows(engine, when):
+        if spec["opts"].get("split"):
+            return          # residue keys change with the split
         for (mi, ri) in supplied_set:
             if mol_names[mi] in ignore:
                 continue
@@ -149,7 +160,11 @@ def check(spec, ctx):
         if isinstance(res.exc, (IOError, OSError)):
             raise Reject(str(res.exc)[:200])
         raise crash("gen_coords:crash", res.exc)
-    c03.check_gro_listing(spec, res)
+    if spec["opts"].get("split"):
+        if res.gro_text is None or isinstance(res.gro, Exception) or len(res.gro["atoms"]) != len(all_atoms):
+            raise Violation("gro:atom_count", "the output does not list every atom of the topology")
+    else:
+        c03.check_gro_listing(spec, res)
     got = res.gro["atoms"]
     # (a) supplied atoms keep their coordinates
     for i, want in want_atom.items():
@@ -165,6 +180,11 @@ def check(spec, ctx):
     for i, want in want_atom.items():
         if flat[i] is None or np.max(np.abs(np.array(flat[i]) - want)) > 1e-9:
             raise Violation("topology:supplied_atom_moved", f"atom {i + 1}: {flat[i]} expected {want}")
+    if spec["opts"].get("split"):
+        # residue identities change with the split; the atom-level clause above is the one that applies
+        ctx.label("split_with_start_structure")
+        ctx.nontrivial = bool(want_atom)
+        return
     # (b) centre-only residues
     for key, want in want_centre.items():
         idxs = [i for i, a in enumerate(all_atoms) if (a[3], a[4]) == key]
